@@ -238,6 +238,8 @@ class Ctx:
         self.n_ops = 0
         self.perturbed_tags = set()
         self.released_ids = {}
+        self.caller_seqs = {}
+        self.caller_seq_snap = {}
         self.steer = False
         self.coulomb_state = "cold"
         self.coulomb_perturbed = False
@@ -370,7 +372,19 @@ def _build(ctx, recipe, live=False):
         flavour = derive_seed(0, "flavour", hash_obj(recipe)) % 4
         c = np.array(center, dtype=float) if flavour % 2 == 0 else [float(v) for v in center]
         rot = rotate  # (a NumPy integer seed passes AtomGrid.__init__'s check but is rejected further down - a C05 matter, not generated)
-        seq = (lambda v: list(v)) if flavour in (0, 3) else (lambda v: np.array(v, dtype=int))
+        def seq(v, kind=degspec[0]):
+            # the caller's own degrees / sizes sequences: one object per distinct content and flavour, created once per
+            # run and handed to every construction that asks for the same values (live constructions only)
+            if not live:
+                return list(v) if flavour in (0, 3) else np.array(v, dtype=int)
+            key = (kind, tuple(v), flavour in (0, 3))
+            if key not in ctx.caller_seqs:
+                ctx.caller_seqs[key] = list(v) if flavour in (0, 3) else np.array(v, dtype=int)
+                ctx.caller_seq_snap[key] = list(v)
+            else:
+                ctx.probes.hit("caller-sequence-reused-between-constructions")
+            return ctx.caller_seqs[key]
+
         if degspec[0] == "default":
             args, kw = (rg,), {"center": c, "rotate": rot, "method": method}
         elif degspec[0] == "deg":
@@ -400,9 +414,21 @@ def _build(ctx, recipe, live=False):
         _, rspec, radius, r_sectors, secs, center, rotate, method = recipe
         rg = _rgrid(ctx, rspec)
         c = np.array(center, dtype=float)
+        def shared(kind, v, as_array):
+            if not live:
+                return np.array(v) if as_array else list(v)
+            key = (kind, tuple(v), as_array)
+            if key not in ctx.caller_seqs:
+                ctx.caller_seqs[key] = np.array(v) if as_array else list(v)
+                ctx.caller_seq_snap[key] = list(v)
+            else:
+                ctx.probes.hit("caller-sequence-reused-between-constructions")
+            return ctx.caller_seqs[key]
+
+        arr = derive_seed(0, "flavour", hash_obj(recipe)) % 2 == 1
         if secs[0] == "deg":
-            return AtomGrid.from_pruned(rg, radius, list(r_sectors), list(secs[1]), center=c, rotate=rotate, method=method)
-        return AtomGrid.from_pruned(rg, radius, list(r_sectors), None, s_sectors=list(secs[1]), center=c, rotate=rotate, method=method)
+            return AtomGrid.from_pruned(rg, radius, shared("r", r_sectors, arr), shared("d", secs[1], arr), center=c, rotate=rotate, method=method)
+        return AtomGrid.from_pruned(rg, radius, shared("r", r_sectors, arr), None, s_sectors=shared("s", secs[1], arr), center=c, rotate=rotate, method=method)
     if kind == "preset":
         _, atnum, preset, center, rotate = recipe
         return AtomGrid.from_preset(atnum, preset, center=np.array(center, dtype=float), rotate=rotate)
@@ -1189,6 +1215,7 @@ def _run_ops(ctx, owner, ops):
 
 class CacheHistoryEngine:
     NAME = "cache-history"
+    RUN_TIMEOUT_S = 600  # generous: a run normally takes well under a second, but the machine may be heavily loaded
     LEVEL = "exploration"
     RULE = (
         "one run = seeded swarm config + operation/fault list (sequential) or 2-3 scheduled caller threads, or (load-fault-enum) every fault kind at "
